@@ -257,6 +257,11 @@ def inline_program(j, config):
                 stack = blk.get("stack", ())
                 is_novel = c in novel
                 new_edge = (_strip_generics(owner), _strip_generics(c)) not in kedges
+                if b["id"] in novel and not is_novel:
+                    # the stand-alone body of a novel function keeps its calls to known functions as calls: the rules recognise
+                    # those by name (ptr_guard_mut(..).as_ptr(), offset(..), ..). When the function is inlined into a reviewed
+                    # caller its code becomes the caller's and is judged by the caller's reviewed edges.
+                    continue
                 if not (is_novel or new_edge):
                     continue
                 if c == b_owner or c in stack or reaches(c, b_owner) or len(stack) >= 3:
